@@ -195,6 +195,23 @@ def judgeLine (a : Acc) (l : String) : Except Verdict Acc := do
                match mf with | .clean => "ok" | .err => "err" | .trap => "crash"]
     if ms != obs then throw (.mismatch s!"udfwrite: model {ms} observed {obs}")
     pure { (a.add (ks.map (fun k => if k.supported then "udfwrite.supported" else "udfwrite.skipped-field"))) with nt := true }
+  | "pbatch" :: cls :: strs =>
+    let some cl := parseCls cls | throw (.badop l)
+    match obs with
+    | ["X", how] => throw (.specfail (if how == "hang" then "terminates" else "process-survives") s!"pbatch: {how}")
+    | _ =>
+      if obs.length != strs.length + 1 then throw (.badop l)
+      let leak := (obs.getLast?.bind String.toNat?).getD 0
+      let mut acc := a
+      for (inp, res) in strs.zip obs do
+        let some bs := unescRaw inp | throw (.badop l)
+        if res.contains 'p' then throw (.specfail "returns-task-or-error" s!"pbatch {inp}: Parse/Format/ParseLambda = {res} (p = panicked)")
+        let c : Ctx := { inp := bs.map (·.toNat), cls := cl, fixed := Gen.peekRestoresWidth == some true }
+        let lexErr := match lexRun c with | .done ts => endsInError ts | _ => true
+        if lexErr && res != "eee" then throw (.mismatch s!"pbatch {inp}: lexer model ends in an error token but the entry points answered {res}")
+        acc := acc.add [s!"pbatch.{res}"]
+      if leak != 0 then throw (.specfail "no-goroutine-leak" s!"pbatch: {leak} goroutine(s) left behind")
+      pure { acc with nt := true }
   | ["http", method, _path, enc, _body] =>
     match obs with
     | ["X", how] => throw (.specfail (if how == "hang" then "terminates" else "process-survives") s!"http {method}: {how}")
